@@ -58,6 +58,8 @@ pub struct Compiler<'a> {
     scope_depth: Vec<i32>,
     current_index: CardIndex,
     function_id: usize,
+    /// unique handle of the (top level) function being compiled
+    current_function_handle: Handle,
 }
 
 #[derive(Debug, Clone, Copy)]
@@ -121,6 +123,7 @@ impl<'a> Compiler<'a> {
             current_index: CardIndex::default(),
             current_imports: Default::default(),
             function_id: 0,
+            current_function_handle: Handle::default(),
         }
     }
 
@@ -325,9 +328,11 @@ impl<'a> Compiler<'a> {
             cards,
             namespace,
             imports,
+            handle,
             ..
         }: &'a FunctionIr,
     ) -> CompilationResult<()> {
+        self.current_function_handle = *handle;
         self.current_namespace = Cow::Borrowed(namespace);
         self.current_imports = Cow::Borrowed(imports);
 
@@ -783,8 +788,11 @@ impl<'a> Compiler<'a> {
 
                 self.compile_begin();
                 const CLOSURE_MASK: u64 = 0xEFEFEFEF;
-                let function_handle =
-                    self.current_index.as_handle() + Handle::from_u64(CLOSURE_MASK);
+                // the card index only holds the function's index inside its own module, which is
+                // not unique in the program: key the closure by the enclosing function's handle
+                let function_handle = self.current_function_handle
+                    + self.current_index.card_index.as_handle()
+                    + Handle::from_u64(CLOSURE_MASK);
                 let arity = embedded_function.arguments.len() as u32;
                 let handle = u32::try_from(self.program.bytecode.len())
                     .expect("bytecode length to fit into 32 bits");
